@@ -339,4 +339,68 @@ func runC38(c *Ctx) {
 		}
 	}
 	c.R.FloorCheck("T-reader call sites", nr, 4)
+
+	// T-fill: buffers handed to the system random source are not empty and the error is looked at
+	c.R.Rule("T-fill", "every crypto/rand.Read (and io.ReadFull(rand.Reader, ..)) call in the key-material packages fills a buffer of non-zero length (not a zero-length slice that is re-sliced afterwards)")
+	nf := 0
+	for f := range c.P.AllFuncs() {
+		root := f
+		for root.Parent() != nil {
+			root = root.Parent()
+		}
+		if !nodeFunc(root) || !keyPkgs(core.RelPath(root.Pkg.Pkg.Path())) {
+			continue
+		}
+		for _, b := range f.Blocks {
+			for _, in := range b.Instrs {
+				call, ok := in.(*ssa.Call)
+				if !ok || call.Call.StaticCallee() == nil {
+					continue
+				}
+				var buf ssa.Value
+				switch call.Call.StaticCallee().String() {
+				case "crypto/rand.Read":
+					buf = call.Call.Args[0]
+				case "io.ReadFull":
+					if ssau.DependsOn(call.Call.Args[0], func(x ssa.Value) bool {
+						g, ok := x.(*ssa.Global)
+						return ok && g.Pkg != nil && g.Pkg.Pkg.Path() == "crypto/rand" && g.Name() == "Reader"
+					}) {
+						buf = call.Call.Args[1]
+					}
+				}
+				if buf == nil {
+					continue
+				}
+				nf++
+				empty := ssau.DependsOn(buf, func(x ssa.Value) bool {
+					mk, ok := x.(*ssa.MakeSlice)
+					return ok && isConstInt(0)(mk.Len)
+				})
+				// error tested: the error result reaches a branch or a return
+				errUsed := false
+				if refs := call.Referrers(); refs != nil {
+					for _, r := range *refs {
+						if ex, ok := r.(*ssa.Extract); ok && ex.Index == 1 {
+							if er := ex.Referrers(); er != nil && len(*er) > 0 {
+								errUsed = true
+							}
+						}
+					}
+				}
+				key := fmt.Sprintf("fill|%s|%s", fname(root), short(call.Call.StaticCallee().String()))
+				det := "reads into a buffer of non-zero length and tests the error"
+				if empty {
+					det = "the buffer handed to the random source has length 0 (nothing is read; the bytes used afterwards are not random)"
+				} else if !errUsed {
+					det = "the error of the random read is ignored"
+				}
+				c.R.Check("T-fill", key, !empty, c.posOf(call), det)
+				if !errUsed {
+					c.R.Info("T-fill", key+"|error ignored", c.posOf(call), "the error result of the random read is not looked at (cannot be shown to fail here; not decided)")
+				}
+			}
+		}
+	}
+	c.R.FloorCheck("T-fill random reads in key packages", nf, 2)
 }
